@@ -17,7 +17,13 @@ func (ts Timestamp) Time() time.Time {
 
 // TimestampFromTime creates a Timestamp from a Time
 func TimestampFromTime(t time.Time) Timestamp {
-	return Timestamp(t.UnixNano())
+	ns := t.UnixNano()
+	if ns < 0 {
+		// Before the UNIX epoch: a negative value would wrap around to a
+		// timestamp in the far future.
+		return 0
+	}
+	return Timestamp(ns)
 }
 
 // TxnID is the LMDB transaction ID.
